@@ -420,15 +420,436 @@ Proof.
     + (* impossible: every key starting with a non-ESC byte has length 1 *)
       exfalso. unfold key_prefix_proper in K. apply existsb_exists in K.
       destruct K as (e & He & K). apply andb_true_iff in K. destruct K as [K1 K2].
-      assert (F : forallb (fun e => match fst e with
+      assert (F : forallb (fun e : bytes * msg => match fst e with
                                     | k0 :: _ :: _ => k0 =? 27
                                     | _ => true end) ext_sequences = true) by (vm_compute; reflexivity).
       pose proof (proj1 (forallb_forall _ _) F e He) as Fe.
       apply negb_true_iff in K2. apply len_ge_false in K2.
-      destruct (fst e) as [|k0 [|k1 kr]].
+      destruct e as [ke ve]. cbn [fst] in *.
+      destruct ke as [|k0 [|k1 kr]].
       * discriminate.
       * cbn [length] in K2. lia.
       * cbn [is_prefix] in K1. apply andb_true_iff in K1. destruct K1 as [K1 _].
-        apply N.eqb_eq in K1. subst k0. unfold ESC in E. cbv beta iota in Fe. Show. congruence.
+        apply N.eqb_eq in K1. subst k0. unfold ESC in E. cbv beta iota in Fe. congruence.
     + rewrite (detect_from_app _ ext K). reflexivity.
+Qed.
+
+(* ================================================================ the rune tail *)
+
+Lemma rune_run_alt fuel s : s <> [] ->
+  rune_run (S fuel) true s =
+  let '(r, w) := decode_rune s in if stops_run r w then ([], 0%nat) else ([r], w).
+Proof. destruct s; [congruence|reflexivity]. Qed.
+
+Lemma tail_stable p ext w m :
+  detect_tail p true = DMsg w m -> detect_tail (p ++ ext) false = DMsg w m.
+Proof.
+  destruct p as [|b0 r]; [discriminate|]. cbn [app]. unfold detect_tail. cbv zeta.
+  destruct (b0 =? ESC) eqn:A.
+  - destruct r as [|s0 r']; [cbn; discriminate|].
+    cbn [skipn app].
+    destruct (s0 =? 0) eqn:Z; [intros H; exact H|].
+    cbn [length]. rewrite !rune_run_alt by discriminate.
+    assert (G1 : len_ge (b0 :: s0 :: r') 2 = true) by (apply len_ge_iff; cbn [length]; lia).
+    assert (G2 : len_ge (b0 :: s0 :: r' ++ ext) 2 = true) by (apply len_ge_iff; cbn [length]; lia).
+    rewrite G1, G2. cbn [andb negb].
+    change (s0 :: r' ++ ext) with ((s0 :: r') ++ ext).
+    destruct (decode_rune (s0 :: r')) as [rr ww] eqn:D.
+    assert (Hfull : stops_run rr ww = false -> full_rune (s0 :: r') = true).
+    { intros St. destruct (full_rune (s0 :: r')) eqn:Fr; [reflexivity|].
+      rewrite (not_full_decode (s0 :: r') ltac:(discriminate) Fr) in D. inversion D; subst.
+      vm_compute in St. discriminate. }
+    destruct (stops_run rr ww) eqn:St.
+    + cbn [Nat.add skipn].
+      destruct (full_rune (s0 :: r')) eqn:Fr; cbn [negb]; [|discriminate].
+      rewrite (full_decode_app _ ext Fr), D, St. intros H; exact H.
+    + rewrite (full_decode_app _ ext (Hfull eq_refl)), D, St.
+      destruct (full_rune (skipn (1 + ww) (b0 :: s0 :: r'))); cbn [negb]; [|discriminate].
+      intros H; exact H.
+  - cbn [skipn app].
+    destruct (b0 =? 0) eqn:Z; [intros H; exact H|].
+    destruct (rune_run (length (b0 :: r)) false (b0 :: r)) as [rs n] eqn:R.
+    cbn [Nat.add andb].
+    destruct (full_rune (skipn n (b0 :: r))) eqn:Fr; cbn [negb]; [|discriminate].
+    change (b0 :: r ++ ext) with ((b0 :: r) ++ ext).
+    rewrite (rune_run_stable ext _ _ _ _ R (le_n _) Fr _ (le_n _)).
+    intros H; exact H.
+Qed.
+
+(* ================================================================ detect_one_msg *)
+
+Lemma detect_one_msg_ne b more : b <> [] ->
+  detect_one_msg b more =
+  if more && may_be_incomplete b then DMore
+  else match detect_mouse b with
+       | Some (w, m) => DMsg w m
+       | None =>
+         match detect_focus b with
+         | Some (w, m) => DMsg w m
+         | None =>
+           match detect_paste b with
+           | PMore => DMore
+           | PMsg w m => DMsg w m
+           | PNone =>
+             match detect_sequence b with
+             | Some (w, m) => DMsg w m
+             | None => detect_tail b more
+             end
+           end
+         end
+       end.
+Proof. destruct b; [congruence|reflexivity]. Qed.
+
+Lemma tail_more_refines b w m : detect_tail b true = DMsg w m -> detect_tail b false = DMsg w m.
+Proof. intros H. rewrite <- (app_nil_r b). exact (tail_stable b [] w m H). Qed.
+
+Lemma tail_more_cases b : detect_tail b true = DMore \/ detect_tail b true = detect_tail b false.
+Proof.
+  unfold detect_tail. destruct b as [|b0 r]; [right; reflexivity|]. cbv zeta.
+  destruct (match skipn (if b0 =? ESC then 1%nat else 0%nat) (b0 :: r) with
+            | [] => false | s0 :: _ => s0 =? 0 end); [right; reflexivity|].
+  destruct (rune_run _ _ _) as [rs n]. cbn [andb].
+  destruct (negb (full_rune (skipn ((if b0 =? ESC then 1%nat else 0%nat) + n) (b0 :: r))));
+    [left; reflexivity|right; reflexivity].
+Qed.
+
+(* A1: canHaveMoreData only ever adds waiting *)
+Lemma more_refines b w m : detect_one_msg b true = DMsg w m -> detect_one_msg b false = DMsg w m.
+Proof.
+  intros H. assert (Hb : b <> []) by (intros ->; discriminate).
+  rewrite detect_one_msg_ne in * by exact Hb. cbn [andb] in *.
+  destruct (may_be_incomplete b); [discriminate|].
+  destruct (detect_mouse b) as [[w1 m1]|]; [exact H|].
+  destruct (detect_focus b) as [[w1 m1]|]; [exact H|].
+  destruct (detect_paste b); try exact H.
+  destruct (detect_sequence b) as [[w1 m1]|]; [exact H|].
+  apply tail_more_refines. exact H.
+Qed.
+
+Lemma more_cases b : detect_one_msg b true = DMore \/ detect_one_msg b true = detect_one_msg b false.
+Proof.
+  destruct b as [|b0 r] eqn:Eb; [right; reflexivity|]. rewrite <- Eb.
+  assert (Hb : b <> []) by (subst; discriminate).
+  rewrite !detect_one_msg_ne by exact Hb. cbn [andb].
+  destruct (may_be_incomplete b); [left; reflexivity|].
+  destruct (detect_mouse b) as [[w1 m1]|]; [right; reflexivity|].
+  destruct (detect_focus b) as [[w1 m1]|]; [right; reflexivity|].
+  destruct (detect_paste b); try (right; reflexivity).
+  destruct (detect_sequence b) as [[w1 m1]|]; [right; reflexivity|].
+  apply tail_more_cases.
+Qed.
+
+(* A2: a message emitted from a full buffer is the message the same bytes give
+   whatever follows them (focus reports excepted: they are recognised by
+   whole-buffer equality) *)
+Theorem stable p w m : detect_one_msg p true = DMsg w m -> m <> MFocus -> m <> MBlur ->
+  forall ext, detect_one_msg (p ++ ext) false = DMsg w m.
+Proof.
+  intros H Hf Hb ext.
+  assert (Hp : p <> []) by (intros ->; discriminate).
+  assert (Hpe : p ++ ext <> []) by (destruct p; [congruence|discriminate]).
+  rewrite detect_one_msg_ne in H by exact Hp. rewrite detect_one_msg_ne by exact Hpe.
+  cbn [andb] in *.
+  destruct (may_be_incomplete p) eqn:M; [discriminate|].
+  destruct (detect_mouse p) as [[w1 m1]|] eqn:Dm.
+  { rewrite (mouse_some _ ext _ _ Dm). exact H. }
+  rewrite (mouse_none _ ext Hp M Dm).
+  destruct (detect_focus p) as [[w1 m1]|] eqn:Df.
+  { exfalso. unfold detect_focus in Df.
+    destruct (bytes_eqb p focus_in); [inversion Df; subst; inversion H; congruence|].
+    destruct (bytes_eqb p focus_out); [|discriminate]. inversion Df; subst; inversion H; congruence. }
+  rewrite (focus_none _ ext Hp M Df).
+  assert (Dp : detect_paste p <> PMore) by (intros Dp; rewrite Dp in H; discriminate).
+  rewrite (paste_stable _ ext Hp M Dp).
+  destruct (detect_paste p) as [| |w1 m1]; [|congruence|exact H].
+  rewrite (sequence_stable _ ext Hp M).
+  destruct (detect_sequence p) as [[w1 m1]|]; [exact H|].
+  exact (tail_stable _ ext _ _ H).
+Qed.
+
+(* with canHaveMoreData still set the extended buffer gives the same message or waits *)
+Corollary stable_true p w m : detect_one_msg p true = DMsg w m -> m <> MFocus -> m <> MBlur ->
+  forall ext, detect_one_msg (p ++ ext) true = DMsg w m \/ detect_one_msg (p ++ ext) true = DMore.
+Proof.
+  intros H Hf Hb ext. destruct (more_cases (p ++ ext)) as [E|E]; [right; exact E|].
+  left. rewrite E. exact (stable p w m H Hf Hb ext).
+Qed.
+
+(* ================================================================ the inner loop *)
+
+Definition push (e : msg * bytes) (r : inner_res) : inner_res :=
+  match r with
+  | IDone o s => IDone (e :: o) s
+  | ILeft o s r => ILeft (e :: o) s r
+  | ICancel o => ICancel (e :: o)
+  | IPanic o => IPanic (e :: o)
+  | IFuel => IFuel
+  end.
+
+Definition prepend (o : list (msg * bytes)) (r : inner_res) : inner_res := fold_right push r o.
+
+Lemma inner_unfold f b more sent cancel : b <> [] ->
+  inner (S f) b more sent cancel =
+  match detect_one_msg b more with
+  | DPanic => IPanic []
+  | DMore => ILeft [] sent b
+  | DMsg O _ => ILeft [] sent b
+  | DMsg w m =>
+    if cancelled_at cancel sent then ICancel []
+    else push (m, firstn w b) (inner f (skipn w b) more (S sent) cancel)
+  end.
+Proof. destruct b; [congruence|reflexivity]. Qed.
+
+(* the fuel is irrelevant once it covers the buffer *)
+Lemma inner_fuel more cancel : forall f1 f2 b sent, (length b <= f1)%nat -> (length b <= f2)%nat ->
+  inner f1 b more sent cancel = inner f2 b more sent cancel.
+Proof.
+  induction f1 as [|f1 IH]; intros f2 b sent H1 H2.
+  - destruct b; [|cbn [length] in H1; lia]. destruct f2; reflexivity.
+  - destruct b as [|b0 r] eqn:Eb; [destruct f2; reflexivity|]. rewrite <- Eb in *.
+    assert (Hne : b <> []) by (subst; discriminate).
+    destruct f2 as [|f2]; [subst b; cbn [length] in H2; lia|].
+    rewrite !inner_unfold by exact Hne.
+    pose proof (detect_width b more Hne) as W.
+    destruct (detect_one_msg b more) as [w m| |]; try reflexivity.
+    destruct w as [|w]; [reflexivity|].
+    destruct (cancelled_at cancel sent); [reflexivity|].
+    rewrite (IH f2 (skipn (S w) b) (S sent)); [reflexivity| |]; rewrite skipn_length; lia.
+Qed.
+
+Definition is_focus_msg (m : msg) : bool :=
+  match m with MFocus | MBlur => true | _ => false end.
+
+Definition no_focusb (o : list (msg * bytes)) : bool :=
+  forallb (fun mc => negb (is_focus_msg (fst mc))) o.
+
+Lemma not_focus_msg m : negb (is_focus_msg m) = true -> m <> MFocus /\ m <> MBlur.
+Proof. destruct m; cbn; intros H; split; congruence. Qed.
+
+Lemma no_focusb_app a b : no_focusb (a ++ b) = no_focusb a && no_focusb b.
+Proof. apply forallb_app. Qed.
+
+(* what a pass over one buffer hands on: messages, count, unconsumed rest *)
+Definition hands_on (r : inner_res) (o : list (msg * bytes)) (s : nat) (rest : bytes) : Prop :=
+  r = ILeft o s rest \/ (r = IDone o s /\ rest = []).
+
+(* A pass over p with canHaveMoreData set, followed by a flush pass over what
+   it left plus ext, is a single flush pass over p ++ ext. *)
+Lemma inner_stable ext : forall fuel p sent o s r,
+  (length p <= fuel)%nat ->
+  hands_on (inner fuel p true sent None) o s r -> no_focusb o = true ->
+  inner (length (p ++ ext)) (p ++ ext) false sent None =
+  prepend o (inner (length (r ++ ext)) (r ++ ext) false s None).
+Proof.
+  induction fuel as [|f IH]; intros p sent o s r Hl H Hnf.
+  - destruct p; [|cbn [length] in Hl; lia]. cbn [inner] in H.
+    destruct H as [H|[H ->]]; [discriminate|]. inversion H; subst. reflexivity.
+  - destruct p as [|b0 t] eqn:Ep.
+    { cbn [inner] in H. destruct H as [H|[H ->]]; [discriminate|]. inversion H; subst. reflexivity. }
+    rewrite <- Ep in *. assert (Hne : p <> []) by (subst; discriminate).
+    rewrite inner_unfold in H by exact Hne.
+    pose proof (detect_width p true Hne) as W.
+    destruct (detect_one_msg p true) as [w m| |] eqn:D.
+    + destruct w as [|w']; [lia|].
+      cbn [cancelled_at] in H.
+      assert (Hsk : (length (skipn (S w') p) <= f)%nat) by (rewrite skipn_length; lia).
+      assert (X : exists o1, o = (m, firstn (S w') p) :: o1 /\
+                             hands_on (inner f (skipn (S w') p) true (S sent) None) o1 s r).
+      { destruct (inner f (skipn (S w') p) true (S sent) None) as [o1 s1|o1 s1 r1|o1|o1|];
+          cbn [push] in H; destruct H as [H|[H Hr]]; try discriminate; inversion H; subst;
+          exists o1; (split; [reflexivity|]); [right; split; reflexivity|left; reflexivity]. }
+      destruct X as (o1 & -> & H1).
+      unfold no_focusb in Hnf. cbn [forallb fst] in Hnf. apply andb_true_iff in Hnf.
+      destruct Hnf as [Hm Hnf1]. apply not_focus_msg in Hm. destruct Hm as [Hm1 Hm2].
+      pose proof (stable p (S w') m D Hm1 Hm2 ext) as St.
+      assert (Hpe : p ++ ext <> []) by (subst p; discriminate).
+      rewrite (inner_fuel false None (length (p ++ ext)) (S (length (p ++ ext)))) by lia.
+      rewrite inner_unfold by exact Hpe. rewrite St. cbn [cancelled_at].
+      rewrite (skipn_app_le (S w') p ext) by lia.
+      rewrite (firstn_app_le (S w') p ext) by lia.
+      rewrite (inner_fuel false None (length (p ++ ext)) (length (skipn (S w') p ++ ext))).
+      * rewrite (IH (skipn (S w') p) (S sent) o1 s r Hsk H1 Hnf1). reflexivity.
+      * rewrite !app_length, skipn_length. lia.
+      * lia.
+    + destruct H as [H|[H _]]; [|discriminate]. inversion H; subst. reflexivity.
+    + destruct H as [H|[H _]]; discriminate.
+Qed.
+
+(* ================================================================ the reader *)
+
+Definition cons_out (o : list (msg * bytes)) (r : rd_result) : rd_result :=
+  {| rd_out := o ++ rd_out r; rd_left := rd_left r; rd_why := rd_why r |}.
+
+Definition after_inner (res : inner_res) (rest : list chunk) (cancel : option nat) : rd_result :=
+  match res with
+  | IDone o s => cons_out o (reader_from rest [] s cancel)
+  | ILeft o s r => cons_out o (reader_from rest r s cancel)
+  | ICancel o => {| rd_out := o; rd_left := []; rd_why := StopCancelled |}
+  | IPanic o => {| rd_out := o; rd_left := []; rd_why := StopPanic |}
+  | IFuel => {| rd_out := []; rd_left := []; rd_why := StopFuel |}
+  end.
+
+Lemma reader_from_chunk bs rest left sent cancel :
+  reader_from (Chunk bs :: rest) left sent cancel =
+  after_inner (inner (length (left ++ bs)) (left ++ bs) (Nat.eqb (length bs) buf_size) sent cancel)
+              rest cancel.
+Proof. reflexivity. Qed.
+
+Lemma cons_out_nil r : cons_out [] r = r.
+Proof. destruct r; reflexivity. Qed.
+
+Lemma cons_out_cons e o r : cons_out (e :: o) r = cons_out [e] (cons_out o r).
+Proof. reflexivity. Qed.
+
+Lemma after_inner_push e res rest cancel : res <> IFuel ->
+  after_inner (push e res) rest cancel = cons_out [e] (after_inner res rest cancel).
+Proof. intros H. destruct res; try reflexivity. congruence. Qed.
+
+Lemma push_not_fuel e res : res <> IFuel -> push e res <> IFuel.
+Proof. destruct res; cbn; congruence. Qed.
+
+Lemma prepend_not_fuel o res : res <> IFuel -> prepend o res <> IFuel.
+Proof. intros H. induction o as [|e o IH]; [exact H|]. cbn [prepend fold_right]. apply push_not_fuel. exact IH. Qed.
+
+Lemma after_inner_prepend o res rest cancel : res <> IFuel ->
+  after_inner (prepend o res) rest cancel = cons_out o (after_inner res rest cancel).
+Proof.
+  intros H. induction o as [|e o IH].
+  - cbn [prepend fold_right]. symmetry. apply cons_out_nil.
+  - cbn [prepend fold_right]. rewrite after_inner_push by (apply prepend_not_fuel; exact H).
+    fold (prepend o res). rewrite IH. reflexivity.
+Qed.
+
+Lemma inner_not_fuel b more sent cancel : inner (length b) b more sent cancel <> IFuel.
+Proof.
+  pose proof (inner_account more cancel (length b) b sent (le_n _)) as A.
+  intros E. rewrite E in A. exact A.
+Qed.
+
+(* a single read that is known to be the last: leftover ++ bytes decoded with canHaveMoreData off *)
+Definition flush (b : bytes) (sent : nat) : rd_result :=
+  after_inner (inner (length b) b false sent None) [] None.
+
+Lemma reader_from_last bs left sent : length bs <> buf_size ->
+  reader_from [Chunk bs] left sent None = flush (left ++ bs) sent.
+Proof.
+  intros H. rewrite reader_from_chunk. apply Nat.eqb_neq in H. rewrite H. reflexivity.
+Qed.
+
+Lemma chunk_invariance_gen last : length last <> buf_size ->
+  forall fulls left sent,
+  Forall (fun f => length f = buf_size) fulls ->
+  no_focusb (rd_out (reader_from (map Chunk fulls) left sent None)) = true ->
+  reader_from (map Chunk (fulls ++ [last])) left sent None = flush (left ++ concat fulls ++ last) sent.
+Proof.
+  intros Hlast. induction fulls as [|f fs IH]; intros left sent Hfull Hnf.
+  - cbn [app map concat]. apply reader_from_last. exact Hlast.
+  - inversion Hfull as [|f' fs' Hf Hfs]; subst.
+    cbn [app map] in *. rewrite reader_from_chunk in *.
+    apply Nat.eqb_eq in Hf. rewrite Hf in *.
+    pose proof (inner_account true None (length (left ++ f)) (left ++ f) sent (le_n _)) as A.
+    replace (left ++ concat (f :: fs) ++ last) with ((left ++ f) ++ (concat fs ++ last))
+      by (cbn [concat]; rewrite <- !app_assoc; reflexivity).
+    unfold flush at 1.
+    destruct (inner (length (left ++ f)) (left ++ f) true sent None) as [o s|o s r|o|o|] eqn:ER.
+    + cbn [after_inner cons_out rd_out] in Hnf. rewrite no_focusb_app in Hnf.
+      apply andb_true_iff in Hnf. destruct Hnf as [Hn1 Hn2].
+      cbn [after_inner]. rewrite (IH [] s Hfs Hn2).
+      rewrite (inner_stable (concat fs ++ last) _ (left ++ f) sent o s [] (le_n _)
+                 ltac:(right; split; [exact ER|reflexivity]) Hn1).
+      rewrite after_inner_prepend by apply inner_not_fuel. reflexivity.
+    + cbn [after_inner cons_out rd_out] in Hnf. rewrite no_focusb_app in Hnf.
+      apply andb_true_iff in Hnf. destruct Hnf as [Hn1 Hn2].
+      cbn [after_inner]. rewrite (IH r s Hfs Hn2).
+      rewrite (inner_stable (concat fs ++ last) _ (left ++ f) sent o s r (le_n _)
+                 ltac:(left; exact ER) Hn1).
+      rewrite after_inner_prepend by apply inner_not_fuel. reflexivity.
+    + destruct A as (_ & _ & A). cbn in A. discriminate.
+    + contradiction.
+    + contradiction.
+Qed.
+
+Lemma buf_size_val : buf_size = 256%nat.
+Proof. reflexivity. Qed.
+
+(* A3 *)
+Theorem chunk_invariance_flush fulls last :
+  Forall (fun f => length f = 256%nat) fulls -> length last <> 256%nat ->
+  no_focusb (rd_out (reader (map Chunk fulls) None)) = true ->
+  reader (map Chunk (fulls ++ [last])) None = flush (concat fulls ++ last) 0.
+Proof.
+  intros Hf Hl Hn. unfold reader.
+  exact (chunk_invariance_gen last Hl fulls [] 0%nat Hf Hn).
+Qed.
+
+Theorem chunk_invariance fulls last :
+  Forall (fun f => length f = 256%nat) fulls -> length last <> 256%nat ->
+  length (concat fulls ++ last) <> 256%nat ->
+  no_focusb (rd_out (reader (map Chunk fulls) None)) = true ->
+  reader (map Chunk (fulls ++ [last])) None = reader [Chunk (concat fulls ++ last)] None.
+Proof.
+  intros Hf Hl Hb Hn. rewrite (chunk_invariance_flush fulls last Hf Hl Hn).
+  unfold reader. rewrite (reader_from_last _ [] 0%nat Hb). reflexivity.
+Qed.
+
+(* ================================================================ cutting an input into reads *)
+
+(* full reads of n bytes, then the short (possibly empty) last read *)
+Fixpoint chunks_fuel (fuel n : nat) (B : bytes) : list bytes * bytes :=
+  match fuel with
+  | O => ([], B)
+  | S f => if Nat.ltb (length B) n then ([], B)
+           else let '(fs, l) := chunks_fuel f n (skipn n B) in (firstn n B :: fs, l)
+  end.
+
+Definition chunks_of (n : nat) (B : bytes) : list bytes * bytes := chunks_fuel (length B) n B.
+
+Lemma chunks_fuel_spec n : (1 <= n)%nat -> forall fuel B fs l,
+  (length B <= fuel)%nat -> chunks_fuel fuel n B = (fs, l) ->
+  Forall (fun f => length f = n) fs /\ (length l < n)%nat /\ concat fs ++ l = B.
+Proof.
+  intros Hn. induction fuel as [|f IH]; intros B fs l Hl H; cbn [chunks_fuel] in H.
+  - inversion H; subst. destruct l; [|cbn [length] in Hl; lia].
+    split; [constructor|]. split; [cbn [length]; lia|reflexivity].
+  - destruct (Nat.ltb (length B) n) eqn:L.
+    + inversion H; subst. apply Nat.ltb_lt in L. split; [constructor|]. split; [exact L|reflexivity].
+    + apply Nat.ltb_ge in L.
+      destruct (chunks_fuel f n (skipn n B)) as [fs' l'] eqn:R. inversion H; subst.
+      destruct (IH (skipn n B) fs' l ltac:(rewrite skipn_length; lia) R) as (F & Ll & C).
+      split; [constructor; [apply firstn_length_le; exact L|exact F]|].
+      split; [exact Ll|]. cbn [concat]. rewrite <- app_assoc, C. apply firstn_skipn.
+Qed.
+
+Lemma chunks_of_spec B fulls last : chunks_of 256 B = (fulls, last) ->
+  Forall (fun f => length f = 256%nat) fulls /\ (length last < 256)%nat /\ concat fulls ++ last = B.
+Proof. intros H. exact (chunks_fuel_spec 256 ltac:(lia) (length B) B fulls last (le_n _) H). Qed.
+
+(* any input, cut into 256-byte reads followed by the short remainder, decodes
+   like the whole input handed over in one flushing read *)
+Theorem chunked_input B fulls last : chunks_of 256 B = (fulls, last) ->
+  no_focusb (rd_out (reader (map Chunk fulls) None)) = true ->
+  reader (map Chunk (fulls ++ [last])) None = flush B 0 /\
+  (length B <> 256%nat -> reader (map Chunk (fulls ++ [last])) None = reader [Chunk B] None).
+Proof.
+  intros H Hn. destruct (chunks_of_spec B fulls last H) as (F & L & C).
+  assert (E : reader (map Chunk (fulls ++ [last])) None = flush B 0).
+  { rewrite <- C. apply chunk_invariance_flush; [exact F|lia|exact Hn]. }
+  split; [exact E|]. intros Hb. rewrite E. unfold reader.
+  rewrite (reader_from_last B [] 0%nat Hb). reflexivity.
+Qed.
+
+(* ================================================================ the property, spelled out *)
+
+Definition msgs (r : rd_result) : list msg := map fst (rd_out r).
+
+Theorem chunk_invariance_fields fulls last :
+  Forall (fun f => length f = 256%nat) fulls -> length last <> 256%nat ->
+  length (concat fulls ++ last) <> 256%nat ->
+  no_focusb (rd_out (reader (map Chunk fulls) None)) = true ->
+  let r := reader (map Chunk (fulls ++ [last])) None in
+  let r1 := reader [Chunk (concat fulls ++ last)] None in
+  msgs r = msgs r1 /\ rd_out r = rd_out r1 /\ rd_left r = rd_left r1 /\ rd_why r = rd_why r1.
+Proof.
+  intros Hf Hl Hb Hn r r1. unfold r, r1, msgs.
+  rewrite (chunk_invariance fulls last Hf Hl Hb Hn). repeat split.
 Qed.
